@@ -1,13 +1,15 @@
 (* C12 Sync discipline: bounded un-synced data and write ordering for durability. Statements only. *)
-Require Import Pearl.Base.Prelude Pearl.Storage.Model Pearl.Storage.Spec Pearl.Io.Trace Pearl.Io.TraceProofs.
+Require Import Pearl.Base.Prelude Pearl.Storage.Model Pearl.Storage.Spec Pearl.Storage.NoHarmProofs Pearl.Io.Trace Pearl.Io.TraceProofs.
 
 Require Pearl.Generated.Facts.
 (* EVERY history of the storage model (all operations, restarts, drops, background requests, dumps at
    quiescence points) produces a file-operation trace that the three predicates accept: appends land at
    the end of their blob, a blob's header is synced before any record goes into it, and an index file is
-   marked complete only when every byte of its blob is synced. *)
+   marked complete only when every byte of its blob is synced.
+   (`no_cut ops`: the trace is what the storage asks of the file system; a blob file cut by a crash behind its back
+   -- OCut, no event -- makes the next append land below the length the trace has followed.) *)
 Theorem C12_every_history_trace_accepted :
-  forall (K : N) (cfg : config) (ops : list op), judge (run_trace K cfg init_storage ops) = true.
+  forall (K : N) (cfg : config) (ops : list op), no_cut ops -> judge (run_trace K cfg init_storage ops) = true.
 Proof. exact history_trace_accepted. Qed.
 
 (* what acceptance means, in terms of the file-state machine (length, synced length) of the trace itself;
@@ -37,9 +39,31 @@ Proof. exact protocol_clean. Qed.
 (* the files the predicted trace leaves behind are the blobs of the final model state *)
 Theorem C12_trace_matches_state :
   forall (K : N) (cfg : config) (ops : list op) (b : blob),
+    no_cut ops ->
     In b (blobs_in_order (fst (run K cfg init_storage ops))) ->
     exists sy, fget (run_evs [] (run_trace K cfg init_storage ops)) (FBlob, b_id b) = Some (blob_size K b, sy) /\ 20 <= sy.
 Proof. exact history_files_match. Qed.
+
+(* with crash damage in the history: judged from a file state that matches the directory as the crash left it (FR: every
+   blob file with the length the model gives it and a synced header, no other blob file), the trace of every
+   continuation without further damage is accepted and its files match the final state *)
+Theorem C12_trace_after_crash_accepted :
+  forall (K : N) (cfg : config) (ops1 ops2 : list op) (st : fstate),
+    let s := fst (run K cfg init_storage ops1) in
+    no_cut ops2 -> s_bad s = [] -> FR K (blobs_in_order s) st ->
+    judge_from ev_harmless st (run_trace K cfg s ops2) && judge_from ev_header_synced st (run_trace K cfg s ops2)
+      && judge_from ev_index_after_sync st (run_trace K cfg s ops2) = true /\
+    FR K (blobs_in_order (fst (run K cfg s ops2))) (run_evs st (run_trace K cfg s ops2)).
+Proof. exact trace_after_crash_accepted. Qed.
+(* why `no_cut`: the trace has no event for the damage, and the append after the restart lands below the length followed *)
+Theorem C12_cut_trace_not_accepted :
+  let cfg := {| c_dup := true; c_maxrec := 1000; c_maxsize := 1000000 |} in
+  judge (run_trace 4 cfg init_storage
+           [OOpen false; OWrite 1 7 None 8 5 1; OWrite 2 8 None 8 5 2; ODrop; OCut 0 (Some 1%nat); OOpen false;
+            OWrite 3 9 None 8 5 3]) = false /\
+  judge (run_trace 4 cfg init_storage
+           [OOpen false; OWrite 1 7 None 8 5 1; OWrite 2 8 None 8 5 2; ODrop; OOpen false; OWrite 3 9 None 8 5 3]) = true.
+Proof. exact cut_trace_not_accepted. Qed.
 
 (* a trace that marks the index complete before the blob was synced is rejected *)
 Theorem C12_unsynced_index_rejected :
@@ -65,3 +89,5 @@ Print Assumptions C12_protocol_clean.
 Print Assumptions C12_trace_matches_state.
 Print Assumptions C12_source_synced_size_before_sync.
 Print Assumptions C12_source_fsync_flag_is_a_guard.
+Print Assumptions C12_trace_after_crash_accepted.
+Print Assumptions C12_cut_trace_not_accepted.
